@@ -357,6 +357,11 @@ func TestC01RoundTrip(t *testing.T) {
 				ots := &ss.Types[rapid.IntRange(0, len(ss.Types)-1).Draw(t, "othertype")]
 				other := gen.NewResource(ots)
 				otherID := id + "-other"
+				fillers := 0
+
+				if rapid.IntRange(0, 9).Draw(t, "fillers") == 0 {
+					fillers = rapid.SampledFrom([]int{29, 30, 31, 47, 48, 61, 62, 63, 64, 65, 127, 129}).Draw(t, "nfillers")
+				}
 
 				// Two members may carry the same ID (two resources that have
 				// none yet, a list that shows a row twice).
@@ -367,6 +372,15 @@ func TestC01RoundTrip(t *testing.T) {
 				other.Set("id", otherID)
 
 				col := &jsonapi.Resources{}
+
+				// (now and then a long list in front of the two: sizes at
+				// which the members may be split among workers)
+				for i := 0; i < fillers; i++ {
+					f := gen.NewResource(ots)
+					f.Set("id", fmt.Sprintf("filler-%d", i))
+					col.Add(f)
+				}
+
 				col.Add(other)
 				col.Add(res)
 
@@ -378,11 +392,11 @@ func TestC01RoundTrip(t *testing.T) {
 
 					d2, err = jsonapi.UnmarshalDocument(payload, ss.Schema)
 					if err == nil {
-						if c, ok := d2.Data.(jsonapi.Collection); ok && c.Len() == 2 {
-							got = c.At(1)
+						if c, ok := d2.Data.(jsonapi.Collection); ok && c.Len() == fillers+2 {
+							got = c.At(fillers + 1)
 
 							// the member in front is still what it was
-							if f := c.At(0); f == nil {
+							if f := c.At(fillers); f == nil {
 								firstMember = "the member in front of it came back as nil"
 							} else if f.GetType().Name != ots.Name || f.Get("id") != otherID {
 								firstMember = fmt.Sprintf("the member in front of it (type %q, id %q) came back with type %q and id %q", ots.Name, otherID, f.GetType().Name, f.Get("id"))
